@@ -174,9 +174,15 @@ def main(argv=None):
     if not a.no_evidence and not a.only:
         head, dirty = repo_head()
         level = getattr(mod, "LEVEL", "proof")
+        # obligations that reproduce a listed known finding are reported separately: the property is known not to hold
+        # there, and they are neither counted as discharged nor hidden
+        kf_ded = sum(1 for (s_, _, _) in known_hit if s_.kind in ("vc", "matalg", "lemma"))
+        n_inapp = sum(1 for (s_, _) in inapplicable if s_.kind in ("vc", "matalg", "lemma"))
         cov = {
-            "obligations": n_ded,
+            "obligations": n_ded - kf_ded - n_inapp,
             "discharged": n_ded_ok,
+            "deductive_obligations_refuted_as_listed_known_findings": kf_ded,
+            "deductive_obligations_not_decided_frame_mismatch": n_inapp,
             "checker_cmd": "./check %s --tier %s" % (pid, tier),
             "trusted_base": getattr(mod, "TRUSTED_BASE", []) + ["z3 5.1.0 (python API)", "/usr/bin/cvc5 1.0.3 for z3 `unknown`s",
                                                                "pyvc VC generator (ast symbolic executor over /repo source)"],
